@@ -8,6 +8,7 @@ on the harness side by `designate`, independently of tt_dimscheck, for the spec;
 impl_ttv_req / impl_ttm_req (Model/C02Modes.v), which call the GENERATED tt_dimscheck, and their result is compared with pyttb's."""
 import itertools
 import math
+import random
 from fractions import Fraction
 
 from vcheck import Case, gz, gzlist, gnlist, gnmat, gq, gopt
@@ -39,12 +40,15 @@ RULE = ("mttkrp/mttkrps additionally on 4-, 5- and 6-way tensors (<= ~200 entrie
         "by reference; very sparse long-mode operands whose stored entries collide in the result (vector-valued ttv named five ways, mttkrp of every mode, "
         "collapse, ttm); masks without any nonzero (sparse from empty arrays / shape only, dense all-zero) for Kruskal / dense / sparse holders. "
         "Wave 5: ttt FULL and partial contractions of equally shaped operands with REPEATED mode sizes (3x3, 2x2x2, 2x3x2; thorough 3x3x3, 2x2x3) under "
-        "EVERY pairing selfdims[k] <-> otherdims[k] (different permutations on the two sides), exhaustively; reconstruct with a mode named twice, an empty "
-        "sample, repeated rows; a REJECTION stream (contract with negative / out-of-range / equal / unequally sized modes on dense and sparse holders, "
+        "EVERY pairing selfdims[k] <-> otherdims[k] (different permutations on the two sides), exhaustively; reconstruct with an empty sample, repeated rows, distinct modes in any order, and (wave 6) the request class of C19-N29 "
+        "(negative / out-of-range / repeated modes: rejection demanded once the finding is repaired - status in findings.d/C19.jsonl or the pending patch present in the "
+        "tree under test -, the unrepaired code's answer pinned while it is open); a REJECTION stream (contract with negative / out-of-range / equal / unequally sized modes on dense and sparse holders, "
         "sptensor.scale with an ill-shaped tensor / sptensor factor on receivers with and without stored entries and an ill-sized ndarray factor, "
         "collapse / scale with negative / out-of-range / repeated mode lists; mttkrp of every holder class with a non-skipped factor of wrong row count "
         "or different column count, a short / long factor list, a mode outside [0, N), a Kruskal operand of another shape): pyttb must raise and the "
-        "request-level model must say Err; mttkrp with an ARBITRARY skipped factor (wrong rows / columns: never looked at) as an ordinary request. "
+        "request-level model must say Err; wave 6: an ill-sized ndarray scaling factor on receivers WITHOUT stored entry (98f7017), a 1-d ndarray for two listed modes, "
+        "ttsv (default algorithm) on non-cubical tensors incl. shapes with shape[0]**ndims entries (2x4x1, 4x2x8) and skip_dim >= ndims (0478ea5), ttsv with skip_dim = ndims - 1; "
+        "mttkrp with an ARBITRARY skipped factor (wrong rows / columns: never looked at) as an ordinary request. "
         "non-trivial = more than one cell and a nonzero entry; distinct = distinct (op, arguments)")
 EXPLANATION = ("Correspondence compares pyttb's raw result with spec_op applied to the denotation of the operand literal "
                "(exact integers in Z; the norm in Qc) and, for every kernel with an algorithm model, with impl_op as well. Theorems in "
@@ -58,8 +62,8 @@ EXPLANATION = ("Correspondence compares pyttb's raw result with spec_op applied 
                "Props/C02w5.v / C02w5b.v / C02w5c.v (wave 5): sptensor.collapse / scale / contract and tensor.contract AS CALLED (argument checks in front of "
                "the kernels: GENERATED tt_dimscheck, the factor's shape test before the 'nothing stored' return, range / size / distinctness tests) with "
                "acceptance and rejection theorems; sumtensor.innerprod / mttkrp / ttv executed PART BY PART with every part's own algorithm model; "
-               "ktensor.innerprod(tensor | sptensor | ttensor) as the component loop over the operand's own ttv; ttensor.reconstruct as called (row "
-               "selection in the model); the 50% container switch of sptensor.ttv / contract as a function of the denoted array; dense mttkrp over the GENERATED "
+               "ktensor.innerprod(tensor | sptensor | ttensor) as the component loop over the operand's own ttv; ttensor.reconstruct as called (request test of 9d2314a and row "
+               "selection in the model: C02_reconstruct_tucker / _accepts / _rejects); the 50% container switch of sptensor.ttv / contract as a function of the denoted array; dense mttkrp over the GENERATED "
                "pyttb.khatrirao (Props/C02w5d.v). A case flagged 'rej' "
                "passes iff pyttb raised and the request-level model returns Err.")
 CORRESPONDENCE_ONLY = [
@@ -71,9 +75,8 @@ CORRESPONDENCE_ONLY = [
     "Kruskal mask: proved by C08 (Props/C08b.v C08_mask: ktensor.mask's accumulation loop = the denoted array at every listed subscript), not duplicated here",
     "the row-count tests of the four mttkrp methods (hand-written in Model/C02HarnessW5.v zmttkrp_accepts on top of the GENERATED get_mttkrp_factors; compared with "
     "pyttb on every mttkrp case and on the rejection stream, no theorem)",
-    "ttsv 'version 1' (= tensor.ttv with N copies of the vector: covered by C02_ttv_dense_req) is not restated; sptensor.scale with an ill-sized NDARRAY factor on a "
-    "receiver without stored entry is answered by pyttb (d89c921 tests tensor / sptensor factors only): modelled as-is (impl_scale_sp_req, flag nd), not generated "
-    "(rejection is C19's clause; reported to C19)",
+    "ttsv 'version 1' (= tensor.ttv with N copies of the vector: covered by C02_ttv_dense_req) is not restated; the request test of ttsv 'version 2' (0478ea5: cubical, "
+    "skip_dim < ndims = the hypotheses of C02_ttsv_dense) is the hand-written bool zttsv_accepts of Model/C02HarnessW5.v, compared with pyttb on every ttsv case, no theorem",
     "mixed-dtype factor lists (int64 / float32 / float64), memory layouts and construction histories of operands (C-ordered data of a tensor grown by assignment, "
     "strided / transposed views, re-assigned factor matrices, cores kept by reference): the theorems speak about values; dtype promotion, layout and history are "
     "covered by generated inputs only",
@@ -91,6 +94,44 @@ ASSUMPTIONS = [
     "the argument checks of Model/C02SpReq.v (shape test of sptensor.scale, range / size / distinctness tests of contract) are hand transliterations compared with "
     "pyttb on every case and on the rejection stream; sumtensor's additions are modelled up to association order",
 ]
+
+def _finding_fixed(prop, fid, patch=None):
+    """True when the finding is flipped to "fixed" in findings.d/<prop>.jsonl, or (finding still open) when the tree under test ($PYTTB_SRC) already carries its
+    pending repair fixes/<patch> (the patch reverse-applies cleanly).  Decides which SINGLE behaviour the request class of the finding must show (like C12's
+    W1 switch): open => the behaviour the finding describes is pinned, fixed => the repaired behaviour is demanded.  VERIF_ASSUME_FIXED=id,id overrides."""
+    import json
+    import os
+    import subprocess
+    if fid in os.environ.get("VERIF_ASSUME_FIXED", "").split(","):
+        return True
+    root = os.path.join(os.path.dirname(os.path.abspath(__file__)), "..", "..")
+    status = None
+    try:
+        for line in open(os.path.join(root, "findings.d", prop + ".jsonl")):
+            if line.strip():
+                j = json.loads(line)
+                if j.get("finding_id") == fid:
+                    status = j.get("status", "open")
+    except OSError:
+        pass
+    if status is not None and status != "open":
+        return True
+    if patch:
+        fn = os.path.abspath(os.path.join(root, "fixes", patch))
+        src = os.environ.get("PYTTB_SRC", "/repo")
+        try:
+            if os.path.exists(fn):
+                r = subprocess.run(["git", "apply", "--reverse", "--check", "--include=pyttb/*", fn], cwd=src, capture_output=True)
+                return r.returncode == 0
+        except OSError:
+            pass
+    return False
+
+
+# C19-N29 (ttensor.reconstruct: negative / out-of-range / REPEATED modes; repair 9d2314a = fixes/C19-N29.diff): fixed => such a request must be REJECTED
+# (pyttb raises and impl_reconstruct_req says None); while the finding is open the code's behaviour for that request class only is pinned (modes used as
+# Python list indices: a negative mode wraps around, a mode named twice keeps the later sample, a mode outside [-N, N) raises).  ONE behaviour at any time.
+N29_FIXED = _finding_fixed("C19", "C19-N29", "C19-N29.diff")
 
 SHAPES_Q = [[3], [1], [2, 3], [3, 2], [1, 3], [3, 3], [2, 3, 4], [4, 3, 2], [2, 1, 3], [2, 2, 2], [3, 2, 1, 4], [2, 3, 2, 2]]
 SHAPES_T = SHAPES_Q + [[4], [4, 2], [3, 1], [3, 4, 2], [3, 3, 3], [1, 1, 2], [2, 3, 4, 3], [4, 3, 3, 2], [2, 2, 2, 2], [1, 2, 3, 4]]
@@ -349,13 +390,25 @@ def gen_cases(rng, tier):
                 rng.shuffle(modes)
             samples = [[rng.randrange(shp[m]) for _ in range(rng.randint(1, 3))] for m in modes]
             cases.append(Case("reconstruct", {"X": T, "modes": modes, "samples": samples}, nontriv(T)))
-            # a mode named TWICE (the later sample wins), an EMPTY sample (the mode is kept whole), repeated rows
+            # an EMPTY sample (the mode is kept whole), repeated rows; when m2 is already listed: a mode named TWICE (request class of C19-N29)
             m2 = rng.randrange(N)
             modes2 = modes + [m2]
             samples2 = [list(s_) for s_ in samples] + [[rng.randrange(shp[m2]) for _ in range(rng.randint(1, 4))]]
             if rng.random() < 0.6:
                 samples2[rng.randrange(len(samples2))] = []
             cases.append(Case("reconstruct", {"X": T, "modes": modes2, "samples": samples2}, nontriv(T)))
+            # wave 6 (own Random: the shared stream is untouched): an ADMISSIBLE request with an empty sample and repeated rows, distinct modes in any
+            # order; and the request class of C19-N29 (negative / out-of-range / repeated modes: rejected once the finding is repaired, see N29_FIXED)
+            r6 = random.Random(f"C02-w6-reconstruct-{shp}-{_}")
+            modes3 = list(range(N))
+            r6.shuffle(modes3)
+            modes3 = modes3[:r6.randint(1, N)]
+            samples3 = [[r6.randrange(shp[m]) for _q in range(r6.randint(2, 4))] for m in modes3]
+            samples3[r6.randrange(len(samples3))] = []
+            cases.append(Case("reconstruct", {"X": T, "modes": modes3, "samples": samples3}, nontriv(T)))
+            badm = [[-1], [-N], [N], [0, 0], [N - 1, -1], [-N - 1], [N + 1, 0], modes3 + [modes3[0]]]
+            for bm in (badm if big else [badm[3]] + r6.sample(badm[:3] + badm[4:], 2)):
+                cases.append(Case("reconstruct", {"X": T, "modes": bm, "samples": [[r6.randrange(shp[m % N])] if -N <= m < N else [0] for m in bm]}, nontriv(T)))
     # ---- regression inputs of repaired findings (ordinary cases: no attribution).  C02-N1 (5f8b038): dense / sparse holder, sparse mask without entry
     for rep_, org_ in (("dense", None), ("dense", "shape_only"), ("sparse", None), ("sparse", "shape_only")):
         Xr = X_dense(*REGRESSION_N1) if rep_ == "dense" else X_sparse(REGRESSION_N1[0], *tgen.dense_to_sparse(*REGRESSION_N1))
@@ -406,6 +459,13 @@ def gen_cases(rng, tier):
                 if has and len(d) == 1:
                     fshape = [want[0] + rng.choice([1, 2])]
                     cases.append(Case("scale", {"X": Xh, "dims": d, "fshape": fshape, "fdata": tgen.rand_dense(rng, fshape, 1.0, 1, 3),
+                                                "fkind": "ndarray", "rej": True}, True))
+                if not has and len(d) == 1:      # 98f7017 (C19-N27): an ill-sized ndarray factor is rejected by a receiver WITHOUT stored entry too
+                    for fshape in ([want[0] + 1], [max(want[0] - 1, 0)]):
+                        cases.append(Case("scale", {"X": Xh, "dims": d, "fshape": fshape, "fdata": [1 + (q % 3) for q in range(fshape[0])],
+                                                    "fkind": "ndarray", "rej": True}, True))
+                if len(d) == 2:                  # a 1-d ndarray for TWO listed modes: rejected with and without stored entries
+                    cases.append(Case("scale", {"X": Xh, "dims": d, "fshape": [want[0]], "fdata": [1 + (q % 3) for q in range(want[0])],
                                                 "fkind": "ndarray", "rej": True}, True))
         # mttkrp: the SKIPPED factor is never looked at (any row / column count: an ordinary, accepted request); a non-skipped factor with a wrong row
         # count or a different column count, a short list, a mode outside [0, N) must be rejected by every holder class
@@ -681,6 +741,23 @@ def gen_cases(rng, tier):
         for skip in [None] + list(range(0, N - 1)):
             for ver in (None, 1, 2):
                 cases.append(Case("ttsv", {"X": X, "v": v, "skip": skip, "ver": ver}, True))
+        # wave 6: skip_dim = N - 1 (dnew = N: nothing is multiplied out, C02_ttsv_dense with dnew = d) for the default algorithm
+        for ver in (None, 2):
+            cases.append(Case("ttsv", {"X": X, "v": v, "skip": N - 1, "ver": ver}, True))
+    # ---- ttsv rejection (0478ea5, C19-N28): the default algorithm ("version 2") must reject a tensor that is NOT cubical — also when it has shape[0] ** ndims
+    #      entries, so that the reshape would go through — and skip_dim >= ndims: exactly the complement of the hypotheses of C02_ttsv_dense
+    r6 = random.Random("C02-w6-ttsv")
+    for shp in ([2, 4, 1], [4, 2, 8], [2, 3], [3, 2, 2], [2, 2, 3]) + (([3, 9, 1], [2, 1, 4], [1, 2]) if big else ()):
+        shp = list(shp)
+        X = X_dense(shp, tgen.rand_dense(r6, shp, 0.9))
+        v = rand_vec(r6, shp[0])
+        for skip in ([None, 0] if not big else [None] + list(range(len(shp) - 1))):
+            for ver in (None, 2):
+                cases.append(Case("ttsv", {"X": X, "v": v, "skip": skip, "ver": ver, "rej": True}, True))
+    for shp in ([2, 2], [2, 2, 2]):
+        X = X_dense(shp, tgen.rand_dense(r6, shp, 0.9))
+        for skip in (len(shp), len(shp) + 1):
+            cases.append(Case("ttsv", {"X": X, "v": rand_vec(r6, 2), "skip": skip, "ver": r6.choice([None, 2]), "rej": True}, True))
     return cases
 
 
@@ -858,12 +935,33 @@ def _dlit(ob):
     return tgen.gdense(ob["shape"], ob["data"]) if ob["k"] in ("dense", "array") else tgen.gdense([], [ob["v"]])
 
 
+def _recon_bad(a):
+    """the request class of C19-N29: a mode outside [0, N) or a mode named twice"""
+    N = len(shape_of(a["X"]))
+    ms = list(a["modes"])
+    return any(not 0 <= m < N for m in ms) or len(set(ms)) != len(ms)
+
+
+def _recon_asis_modes(a):
+    """C19-N29 open: the modes as the unrepaired code uses them (Python list indices: [-N, N) wraps around); None = IndexError"""
+    N = len(shape_of(a["X"]))
+    if any(not -N <= m < N for m in a["modes"]):
+        return None
+    return [m % N for m in a["modes"]]
+
+
 def _recon_look(a):
-    """mode -> rows actually used by reconstruct: a later (sample, mode) pair overrides an earlier one, an empty sample keeps the mode whole"""
+    """mode -> rows actually used by reconstruct (an empty sample keeps the mode whole).  Admissible requests name every mode once; for the request class
+    of C19-N29 while that finding is open: wrapped modes, the later (sample, mode) pair overrides an earlier one"""
     look = {}
-    for m, s_ in zip(a["modes"], a["samples"]):
+    for m, s_ in zip(_recon_asis_modes(a), a["samples"]):
         look[m] = list(s_)
     return {m: s_ for m, s_ in look.items() if s_}
+
+
+def _recon_rejected(a):
+    """the single behaviour demanded of this reconstruct request is an exception"""
+    return _recon_bad(a) and (N29_FIXED or _recon_asis_modes(a) is None)
 
 
 def _glit(x):
@@ -914,11 +1012,31 @@ def _req_expr(c):
 
 def coq_check(c, o):
     a = c.args
+    if c.op == "reconstruct" and _recon_bad(a):          # request class of C19-N29 (see N29_FIXED): ONE behaviour per finding status
+        X = a["X"]
+        tl = tgen.gttensor(X['core_shape'], X['core_data'], X['factors'])
+        smp = "[" + "; ".join(gnlist(s_) for s_ in a["samples"]) + "]"
+        none = f"zopt_none (zimpl_reconstruct_req {tl} {gzlist(a['modes'])} {smp})"      # the model (9d2314a) rejects this class whatever the status
+        if _recon_rejected(a):
+            return none if "exc" in o else "false"
+        if "exc" in o or not (o["ok"]["k"] == "dense" and obs_ints(o["ok"])):
+            return "false"
+        ob = o["ok"]
+        shp = shape_of(X)
+        sel = ["None"] * len(shp)
+        rs = list(shp)
+        for m, s_ in _recon_look(a).items():
+            sel[m] = f"(Some {gnlist(s_)})"
+            rs[m] = len(s_)
+        return (none + " && " + gmatch(rs, f"(zsample [{'; '.join(sel)}] {gden(X)})", ob) +
+                f" && dense_eqb (zimpl_reconstruct {tl} {gnlist(_recon_asis_modes(a))} {smp}) {tgen.gdense(ob['shape'], ob['data'])}")
     if a.get("rej"):            # rejection stream: the request is outside the operation's domain: pyttb must raise AND the request-level model must say Err
         if "exc" not in o:
             return "false"
         if c.op == "mttkrp":
             return f"negb {_mttkrp_accepts(c)}"
+        if c.op == "ttsv":
+            return f"negb (zttsv_accepts {gnlist(shape_of(a['X']))} {0 if a['skip'] is None else a['skip'] + 1})"
         return f"zres_err {_req_expr(c)}"
     if "exc" in o:
         return "false"          # every other request generated here is admissible
@@ -1219,10 +1337,10 @@ def coq_check(c, o):
             rs[m] = len(s)
         e = gmatch(rs, f"(zsample [{'; '.join(sel)}] {dX})", ob)
         if X["rep"] == "t" and ob["k"] == "dense" and obs_ints(ob):
-            # ttensor.reconstruct AS CALLED (Model/C02Reconstruct.v, C02_reconstruct_tucker): the caller's (samples, modes) lists; the model
-            # fills full_samples, selects the rows and runs full()
+            # ttensor.reconstruct AS CALLED (Model/C02Reconstruct.v, C02_reconstruct_tucker): the caller's (samples, modes) lists (integer modes); the
+            # model applies the request test, fills full_samples, selects the rows and runs full()
             smp = "[" + "; ".join(gnlist(s_) for s_ in a["samples"]) + "]"
-            e += (f" && dense_eqb (zimpl_reconstruct {tgen.gttensor(X['core_shape'], X['core_data'], X['factors'])} {gnlist(a['modes'])} {smp}) "
+            e += (f" && zopt_is (zimpl_reconstruct_req {tgen.gttensor(X['core_shape'], X['core_data'], X['factors'])} {gzlist(a['modes'])} {smp}) "
                   f"{tgen.gdense(ob['shape'], ob['data'])}")
         return e
     if c.op == "ttt":
@@ -1247,6 +1365,7 @@ def coq_check(c, o):
         if a["ver"] in (None, 2) and ob["k"] in ("dense", "array", "scalar") and obs_ints(ob):
             # the "version 2" loop (Model/C02Ttsv.v, C02_ttsv_dense): raw result
             e += f" && dense_eqb (zimpl_ttsv {tgen.gdense(X['shape'], X['data'])} {gzlist(a['v'])} {first}) {_dlit(ob)}"
+            e += f" && zttsv_accepts {gnlist(shp)} {first}"
         return e
     raise ValueError(c.op)
 
@@ -1350,6 +1469,12 @@ def expected(c, o=None):
 
 
 def oracle(c, o):
+    if c.op == "reconstruct" and _recon_bad(c.args):
+        if _recon_rejected(c.args):
+            return None if "exc" in o else ("reconstruct answered a request with a negative / out-of-range / repeated mode"
+                                            + (" (C19-N29 is repaired: rejection demanded)" if N29_FIXED else ""))
+        if "exc" in o:
+            return f"C19-N29 is open (modes used as list indices) but the request raised {o['exc']}: {o.get('msg')}"
     if c.args.get("rej"):
         return None if "exc" in o else ("a request outside the operation's domain (mode negative / out of range / repeated, unequally sized modes, ill-shaped "
                                         "scaling factor) was answered: no sum over indices is defined for it")
